@@ -297,6 +297,10 @@ def rule_thread_count(ctx):
     for b in P.all_bodies():
         if "::tests" in b.name:
             continue
+        if b.name.startswith("dev_hooks::"):
+            # feature `dev-hooks`: a bare executor handed to benchmarks, not part of any simulation bench (no model, no init);
+            # it passes its pool size through as documented and is none of this property's business
+            continue
         for s in b.calls(r"^executor::Executor::new_multi_threaded$"):
             n += 1
             os_ = b.origins(s.args()[0], s)
